@@ -24,7 +24,7 @@ RULE = (
 ASSUMPTIONS = ["only soundness of positive lemma verdicts is a property (the lemma is not complete)", "N = 6 (7 thorough); oracle: vf/oracle/mesh.py"]
 REQUIRED = ["calls.MeshPatt.can_shade", "calls.MeshPatt.can_simul_shade", "calls.MeshPatt.shadable_boxes", "calls.MeshPatt.add_point",
             "calls.MeshPatt.add_increase", "calls.MeshPatt.add_decrease", "calls.MeshPatt.shade", "calls.MeshPatt.ascii_plot", "calls.Perm.ascii_plot", "calls.MeshPatt.has_anchored_point", "calls.MeshPatt.non_pointless_boxes", "calls.MeshPatt.__str__", "calls.MeshPatt.__bool__",
-            "lemma.positive_single", "lemma.positive_pair", "lemma.table_entries", "insertion.decisions", "plot.parsed", "history.derived_objects", "history.mixed_lengths"]
+            "lemma.positive_single", "lemma.positive_pair", "lemma.table_entries", "insertion.decisions", "plot.parsed", "history.derived_objects", "history.mixed_lengths", "receivers.bivincular_family"]
 MIN_NONTRIVIAL = 300
 CTX = None
 MON = None
@@ -452,7 +452,7 @@ CHECKS = {"shade1": chk_shade1, "shade2": chk_shade2, "table": chk_table, "inser
 def plan(tier, seed):
     specs = [{"name": f"small-{i}", "kind": "small", "part": i, "parts": 16} for i in range(16)]
     n3 = 1600 if tier == "quick" else 8000
-    specs += [{"name": f"rand-{i}", "kind": "rand", "count": n3 // 16, "k4": 0 if tier == "quick" else 40} for i in range(16)]
+    specs += [{"name": f"rand-{i}", "kind": "rand", "count": n3 // 16, "k4": 0 if tier == "quick" else 40, "index": i, "of": 16} for i in range(16)]
     return specs
 
 
@@ -488,6 +488,19 @@ def run(ctx, spec):
                 if free and kq <= 2:
                     Q.add_point(rng.choice(free), rng.choice([DIR_NONE, DIR_EAST, DIR_NORTH, DIR_WEST, DIR_SOUTH]))
             ctx.count("history.mixed_lengths")
+        # receivers of the bivincular family (they inherit every one of these operations): all requirement sets for length <= 2
+        from permuta import BivincularPatt, CovincularPatt, VincularPatt
+
+        fam = []
+        for k in (1, 2):
+            subsets = [[x for x in range(k + 1) if mask >> x & 1] for mask in range(2 ** (k + 1))]
+            for q in itertools.permutations(range(k)):
+                fam += [VincularPatt(Perm(q), a) for a in subsets] + [CovincularPatt(Perm(q), a) for a in subsets]
+                fam += [BivincularPatt(Perm(q), a, b) for a in subsets for b in subsets]
+        mine = fam[spec.get("index", 0):: spec.get("of", 1)]
+        for B in mine:
+            chk_pattern(ctx, enc(B), full=len(B) < 2 or rng.random() < 0.25)
+            ctx.count("receivers.bivincular_family")
         for _ in range(spec["count"]):
             k = 3
             p = rng.sample(range(k), k)
